@@ -6,11 +6,13 @@ package ice
 
 import (
 	"bytes"
+	"context"
 	"encoding/binary"
 	"errors"
 	"fmt"
 	"io"
 	"net"
+	"net/netip"
 	"sync/atomic"
 	"time"
 )
@@ -119,8 +121,8 @@ func (c *c14conn) Write(b []byte) (int, error) {
 
 	return len(b), nil
 }
-func (c *c14conn) Close() error                     { c.closed.Store(true); return nil }
-func (c *c14conn) LocalAddr() net.Addr              { return &net.TCPAddr{IP: net.IPv4(10, 0, 0, 1), Port: 1} }
+func (c *c14conn) Close() error        { c.closed.Store(true); return nil }
+func (c *c14conn) LocalAddr() net.Addr { return &net.TCPAddr{IP: net.IPv4(10, 0, 0, 1), Port: 1} }
 func (c *c14conn) RemoteAddr() net.Addr {
 	if c.raddr != nil {
 		return c.raddr
@@ -217,7 +219,7 @@ func c14payload(n int, seed byte) []byte {
 func checkC14(c *runCtx) {
 	c.setLevel("exploration")
 	c.assume("the transport behaves like a TCP net.Conn: Read returns (n>0,nil), (0,EOF) or (0,err); never (0,nil) for a non-empty buffer",
-		"activeTCPConn uses the same two framing functions through a real net.Dialer and is covered only through them (DESIGN.md section 8)")
+		"activeTCPConn uses the same two framing functions through a real net.Dialer; beyond them it is exercised over a real loopback connection with oracles that do not depend on the segmentation (not exhaustive over segmentations)")
 	var evals, nontrivial int
 	report := func(part, problem string, cse map[string]any, finding string) {
 		cse["part"] = part
@@ -477,6 +479,19 @@ func checkC14(c *runCtx) {
 	c.sample(map[string]any{"part": "tcpPacketConn round trip", "streams": len(rtStreams), "answers": "all chunkings", "mtu": "8191/8192-byte packets with chunk sizes 1,2,3,1000,8192,unbounded",
 		"hostile": "frames of 8193, 8194, 30000, 65535 bytes whose body is well-formed frames, with and without a leading valid frame; truncated and garbage streams in all chunkings"})
 
+	// ---- part 6: activeTCPConn (the dialing side of a TCP candidate) over a real loopback connection. The segmentation
+	// is whatever the kernel does, so this part adds no exhaustiveness; every oracle is independent of it (same
+	// packets, same order, nothing fabricated). Waiting is only ever for something a correct implementation must do.
+	for _, sc := range []string{"frames-in", "frames-out", "oversized-in", "garbage-in"} {
+		problem := c14active(sc)
+		evals++
+		nontrivial++
+		if problem != "" {
+			report("activeTCPConn over loopback", sc+": "+problem, map[string]any{"scenario": sc}, "")
+		}
+	}
+	c.sample(map[string]any{"part": "activeTCPConn over loopback", "scenarios": "frames of 1/255/8192 bytes inbound (written byte-wise and at once) and outbound; an oversized frame whose body is well-formed frames; a garbage stream"})
+
 	c.set("evaluations", evals)
 	c.set("distinct_nontrivial", nontrivial)
 	c.set("rule", "an evaluation is one complete run of the real reader/writer over one (stream, buffer, sequence of transport answers); executions are generated by depth-first enumeration of every answer sequence, so all are distinct; non-trivial = at least one short read / injected fault / hostile stream / boundary length (default full-read runs are not counted)")
@@ -518,6 +533,125 @@ func c14roundTrip(stream []byte, want [][]byte, answer func(req, rem int) (int, 
 	}
 	if !conn.closed.Load() {
 		return "stream not closed after EOF"
+	}
+
+	return ""
+}
+
+// c14active runs one scenario of the dialing side against a loopback listener owned by the harness.
+func c14active(scenario string) string {
+	lis, err := net.Listen("tcp", "127.0.0.1:0")
+	if err != nil {
+		return "" // no loopback TCP in this environment: nothing to judge
+	}
+	defer lis.Close() //nolint:errcheck
+	ctx, cancel := context.WithCancel(context.Background())
+	defer cancel()
+	ac := newActiveTCPConn(ctx, "127.0.0.1:0", netip.MustParseAddrPort(lis.Addr().String()), nopLogger{})
+	defer ac.Close() //nolint:errcheck
+	_ = lis.(*net.TCPListener).SetDeadline(time.Now().Add(30 * time.Second))
+	peer, err := lis.Accept()
+	if err != nil {
+		return "the active side did not connect: " + err.Error()
+	}
+	defer peer.Close() //nolint:errcheck
+	type rd struct {
+		pkt []byte
+		err error
+	}
+	reads := make(chan rd, 64)
+	go func() {
+		for {
+			buf := make([]byte, receiveMTU)
+			n, _, err := ac.ReadFrom(buf)
+			reads <- rd{buf[:n], err}
+			if err != nil {
+				return
+			}
+		}
+	}()
+	expect := func(want [][]byte) string {
+		for i, w := range want {
+			select {
+			case r := <-reads:
+				if r.err != nil {
+					return fmt.Sprintf("packet %d: ReadFrom returned %v", i, r.err)
+				}
+				if !bytes.Equal(r.pkt, w) {
+					return fmt.Sprintf("packet %d differs (got %d bytes, want %d)", i, len(r.pkt), len(w))
+				}
+			case <-time.After(60 * time.Second):
+				return fmt.Sprintf("packet %d was not delivered", i)
+			}
+		}
+
+		return ""
+	}
+	noMore := func(what string) string {
+		select {
+		case r := <-reads:
+			if r.err == nil {
+				return fmt.Sprintf("%s: the reader received a fabricated packet of %d bytes: %q", what, len(r.pkt), r.pkt[:min(len(r.pkt), 16)])
+			}
+		case <-time.After(300 * time.Millisecond):
+		}
+
+		return ""
+	}
+	switch scenario {
+	case "frames-in":
+		pls := [][]byte{c14payload(1, 1), c14payload(255, 2), c14payload(receiveMTU, 3), c14payload(7, 4)}
+		stream := c14frame(pls...)
+		for i := 0; i < 40 && i < len(stream); i++ { // the first bytes one by one, the rest at once
+			if _, err := peer.Write(stream[i : i+1]); err != nil {
+				return err.Error()
+			}
+		}
+		if _, err := peer.Write(stream[40:]); err != nil {
+			return err.Error()
+		}
+		if p := expect(pls); p != "" {
+			return p
+		}
+
+		return noMore("after the last frame")
+	case "frames-out":
+		pls := [][]byte{c14payload(1, 1), c14payload(255, 2), c14payload(receiveMTU, 3), c14payload(7, 4)}
+		for _, p := range pls {
+			if n, err := ac.WriteTo(p, nil); err != nil || n != len(p) {
+				return fmt.Sprintf("WriteTo(%d bytes) = %d, %v", len(p), n, err)
+			}
+		}
+		want := c14frame(pls...)
+		got := make([]byte, len(want))
+		_ = peer.SetReadDeadline(time.Now().Add(60 * time.Second))
+		if _, err := io.ReadFull(peer, got); err != nil {
+			return "the peer did not receive the framed packets: " + err.Error()
+		}
+		if !bytes.Equal(got, want) {
+			return "the byte stream received by the peer is not the RFC 4571 framing of the packets written"
+		}
+	case "oversized-in":
+		lead := c14payload(3, 9)
+		stream := c14frame(lead)
+		over := receiveMTU + 1
+		stream = append(stream, byte(over>>8), byte(over&0xff))
+		stream = append(stream, c14frame([]byte("EVIL"), []byte("MORE"))...)
+		stream = append(stream, c14payload(over, 1)...)
+		if _, err := peer.Write(stream); err != nil {
+			return err.Error()
+		}
+		if p := expect([][]byte{lead}); p != "" {
+			return p
+		}
+
+		return noMore("after a frame larger than the receive buffer")
+	case "garbage-in":
+		if _, err := peer.Write([]byte{0xff, 0xff, 0x00, 0x04, 'E', 'V', 'I', 'L', 0x00, 0x04, 'M', 'O', 'R', 'E'}); err != nil {
+			return err.Error()
+		}
+
+		return noMore("after a 65535-byte length header")
 	}
 
 	return ""
